@@ -27,7 +27,7 @@ def main():
     try:
         mod = importlib.import_module("corr_" + a.prop)
         if a.replay:
-            return mod.replay(ctx, a.replay)
+            return replay(a, mod)
         aud = common.audit(a.prop)
         drv = common.Driver()
         ctx.model_ok = drv.ok
@@ -55,6 +55,52 @@ def main():
     except Exception:
         traceback.print_exc()
         return 2
+
+
+def replay(a, mod):
+    """Re-establish a recorded violation against the CURRENT tree: show the recorded failing input (and what the per-property
+    replay routine observes for it now), then re-run the whole check with the recorded seed and tier — every generator is
+    derived from that one seed, so the same inputs are produced — and report whether a failure of the same kind at the same
+    call site (or the same broken theorem / correspondence) is found again.  exit 1 = reproduced, 0 = not reproduced."""
+    import json
+    rec = json.load(open(a.replay))
+    seed, tier = int(rec.get("seed", 20260930)), rec.get("tier", "quick")
+    print(f"[replay {a.prop}] recorded with seed={seed} tier={tier}: kind={rec.get('kind')}")
+    try:
+        mod.replay(common.Ctx(a.prop, tier, seed), a.replay)
+    except Exception as e:          # display only; the verdict comes from the re-run below
+        print(f"[replay {a.prop}] per-property replay routine raised {type(e).__name__}: {e}")
+    ctx = common.Ctx(a.prop, tier, seed)
+    aud = common.audit(a.prop)
+    drv = common.Driver()
+    ctx.model_ok = drv.ok
+    try:
+        mod.run(ctx, drv)
+    except common.Infra:
+        raise
+    except Exception:
+        if not ctx.failures:
+            raise
+    fl = rec.get("failure")
+    if fl:
+        same = [f for f in ctx.failures if f.get("kind") == fl.get("kind") and f.get("where") == fl.get("where")]
+        print(f"[replay {a.prop}] failures of kind {fl.get('kind')!r} at {fl.get('where')!r} on the current tree: {len(same)}"
+              f" (all failures found: {len(ctx.failures)}, correspondence disagreements: {len(ctx.disagreements)})")
+        if same:
+            print("  first one now:", json.dumps({k: same[0].get(k) for k in ("input", "observed", "expected")}, default=str)[:1500])
+            print(f"VIOLATION property={a.prop} replay={a.replay}")
+            return 1
+        return 0
+    broken_then = set(rec.get("no_longer_checks", []))
+    broken_now = {f"theorem {n}: {why}" for n, why in aud["undischarged"]} | {"correspondence " + d["correspondence"] for d in ctx.disagreements}
+    if not ctx.model_ok:
+        broken_now.add("driver/model did not build")
+    again = sorted(broken_then & broken_now) or (sorted(broken_now) if broken_then and broken_now else [])
+    print(f"[replay {a.prop}] no longer checking now: {sorted(broken_now)[:5]}")
+    if again:
+        print(f"VIOLATION property={a.prop} replay={a.replay} no-failing-input-found")
+        return 1
+    return 0
 
 
 if __name__ == "__main__":
